@@ -1770,7 +1770,7 @@ pub mod min_max_sum_norm_ops_avx512 {
         description = "Vertical min of the two provided vectors",
         ty = f64,
         register = Avx512,
-        op = generic_max_vertical,
+        op = generic_min_vertical,
         xconst = f64_xconst_avx512_nofma_min_vertical,
         xany = f64_xany_avx512_nofma_min_vertical,
         features = "avx512f"
